@@ -21,6 +21,7 @@ from .core import (
     SymComplex,
     Unsupported,
     _coerce,
+    exact,
     is_symbolic,
     lift,
     sym_exp,
@@ -74,6 +75,8 @@ class SymNP:
         return _kind(dtype) in ("f", "c", None) and self._sfa
 
     def array(self, x, dtype=None, copy=True, **kw):
+        if getattr(x, "_symx_passthrough", False):
+            return x
         if A.any_symbolic(x) or (isinstance(x, _np.ndarray) and x.dtype == object and _kind(dtype) != "O"):
             return A.to_symarray(x, dtype)
         if _kind(dtype) in ("f", "c") and self._sfa:
@@ -86,6 +89,8 @@ class SymNP:
             return A.to_symarray(x, dtype)
 
     def asarray(self, x, dtype=None, **kw):
+        if getattr(x, "_symx_passthrough", False):
+            return x
         if isinstance(x, A.SymArray):
             if dtype is None or _kind(dtype) in ("f", "c", "O"):
                 return x
@@ -122,7 +127,7 @@ class SymNP:
         if k in ("i", "u"):
             value = int(value) if not is_symbolic(value) else value
         elif k in ("f", None):
-            value = float(value) if not is_symbolic(value) else value
+            value = exact(float(value)) if not is_symbolic(value) else value
         elif k == "c":
             value = complex(value) if not is_symbolic(value) else value
         out.fill(value)
@@ -147,9 +152,7 @@ class SymNP:
         return self._filled(_np.shape(a), 1, dtype or getattr(a, "dtype", None) if getattr(a, "dtype", None) != object else None)
 
     def eye(self, n, m=None, k=0, dtype=None, **kw):
-        out = _np.eye(n, m, k, dtype=float)
-        if _kind(dtype) in ("i", "u"):
-            return out.astype(int).astype(object).view(A.SymArray)
+        out = _np.eye(n, m, k, dtype=int)
         return out.astype(object).view(A.SymArray)
 
     def identity(self, n, dtype=None):
